@@ -164,6 +164,12 @@ def conversation(kind, version):
         return ([{'version': version,
                   'status': {'reply': status_json(version)}}],
                 {'allowed_versions': {version}}, 'status')
+    if kind == 'status_default':
+        # the same conversation asked for with the DEFAULT handlers (they
+        # print): status(handle_status=None, handle_ping=None)
+        return ([{'version': version,
+                  'status': {'reply': status_json(version)}}],
+                {'allowed_versions': {version}}, 'status_default')
     if kind == 'negotiate':
         other = 47 if version != 47 else 340
         return ([{'version': version,
@@ -279,7 +285,13 @@ def run(kind, version, cut_link, cut_n, plan, select_fail=None):
         world.accept = accept
         err = None
         try:
-            if entry == 'status':
+            if entry == 'status_default':
+                import contextlib
+                import io
+                with contextlib.redirect_stdout(io.StringIO()):
+                    conn.status(handle_status=None, handle_ping=None)
+                    alive = world.settle()
+            elif entry == 'status':
                 conn.status(handle_status=status_calls.append,
                             handle_ping=status_calls.append)
             else:
@@ -381,7 +393,9 @@ def cut_case(ctx, case):
         if reported:
             ctx.fail('cut', 'H3-normal-outcome', case,
                      repr(o.exceptions[0][0]), 'no error')
-        if kind == 'status':
+        if kind == 'status_default':
+            pass            # (the default handlers print; nothing to count)
+        elif kind == 'status':
             if len(r['status_calls']) != 2:
                 ctx.fail('cut', 'H3-normal-outcome', case,
                          r['status_calls'], 'status and latency handlers')
@@ -557,7 +571,7 @@ def tasks(tier):
                            dict(kind=kind, version=v, shard=s, nshards=ns,
                                 quick=q)))
     for kind in ('status+prior', 'negotiate+prior', 'negotiate_out+prior',
-                 'negotiate_gone'):
+                 'negotiate_gone', 'status_default'):
         for v in (PROTOCOLS[::2] if q else PROTOCOLS):
             tl.append(('%s_%d' % (kind, v), t_conv,
                        dict(kind=kind, version=v, shard=0, nshards=1,
